@@ -16,14 +16,14 @@ M = [
  ("c04-timeout-skips-embedded-qc", "consensus/src/messages.rs", "        if self.high_qc != QC::genesis() {\n            self.high_qc.verify(committee)?;\n        }\n        Ok(())", "        Ok(())", ["C04","C10"]),
  ("c05-commit-b1", "consensus/src/core.rs", "            self.commit(b0).await?;", "            self.commit(b1.clone()).await?;", ["C05","C02"]),
  ("c06-no-timer-reset-on-advance", "consensus/src/core.rs", "        // Reset the timer and advance round.\n        self.timer.reset();\n", "", ["C06","C10"]),
- ("c06-tc-not-broadcast", "consensus/src/core.rs", "            // Broadcast the TC.\n            debug!(\"Broadcasting {:?}\", tc);", "            // Broadcast the TC.\n            if false { return Ok(()); }\n            debug!(\"Broadcasting {:?}\", tc);", ["C06"]),
+ ("c06-tc-not-broadcast", "consensus/src/core.rs", "            self.network\n                .broadcast(addresses, Bytes::from(message))\n                .await;\n\n            // Make a new block if we are the next leader.\n            if self.name == self.leader_elector.get_leader(self.round) {\n                self.generate_proposal(Some(tc)).await;", "            let _ = (addresses, message);\n\n            // Make a new block if we are the next leader.\n            if self.name == self.leader_elector.get_leader(self.round) {\n                self.generate_proposal(Some(tc)).await;", ["C06"]),
  ("c06-no-proposal-after-tc", "consensus/src/core.rs", "            // Make a new block if we are the next leader.\n            if self.name == self.leader_elector.get_leader(self.round) {\n                self.generate_proposal(Some(tc)).await;\n            }\n        }\n        Ok(())\n    }\n\n    #[async_recursion]\n    async fn advance_round", "        }\n        Ok(())\n    }\n\n    #[async_recursion]\n    async fn advance_round", ["C06"]),
  ("c06-timer-not-rearmed-after-timeout", "consensus/src/core.rs", "        // Reset the timer.\n        self.timer.reset();\n\n        // Broadcast the timeout message.", "        // Broadcast the timeout message.", ["C06"]),
  ("c07-retry-disabled", "consensus/src/synchronizer.rs", "if timestamp + (sync_retry_delay as u128) < now {", "if timestamp + (sync_retry_delay as u128) < now && false {", ["C07"]),
  ("c07-helper-wrong-key", "consensus/src/helper.rs", "                .read(digest.to_vec())", "                .read({ let mut k = digest.to_vec(); k[0] ^= 1; k })", ["C07","C20","C15"]),
  ("c07-sync-no-loopback", "consensus/src/synchronizer.rs", "                            if let Err(e) = tx_loopback.send(block).await {\n                                panic!(\"Failed to send message through core channel: {}\", e);\n                            }", "                            let _ = &tx_loopback; let _ = block;", ["C07","C02"]),
  ("c08-verify-true-on-missing", "consensus/src/mempool.rs", "        if missing.is_empty() {\n            return Ok(true);\n        }", "        if missing.is_empty() || missing.len() == 1 {\n            return Ok(true);\n        }", ["C08"]),
- ("c08-waiter-first-of-several", "consensus/src/mempool.rs", "            result = try_join_all(waiting) => {\n                result.map(|_| Some(deliver)).map_err(ConsensusError::from)\n            }", "            result = futures::future::select_all(waiting) => {\n                result.0.map(|_| Some(deliver)).map_err(ConsensusError::from)\n            }", ["C08"]),
+ ("c08-waiter-first-of-several", "consensus/src/mempool.rs", "            result = try_join_all(waiting) => {\n                result.map(|_| Some(deliver)).map_err(ConsensusError::from)\n            }", "            result = futures::future::select_all(waiting.into_iter().map(Box::pin)) => {\n                result.0.map(|_| Some(deliver)).map_err(ConsensusError::from)\n            }", ["C08"]),
  ("c09-unsorted-keys", "consensus/src/leader.rs", "        keys.sort();\n", "", ["C09"]),
  ("c09-wrong-leader-check-removed", "consensus/src/core.rs", "        ensure!(\n            block.author == self.leader_elector.get_leader(block.round),", "        ensure!(\n            block.author == self.leader_elector.get_leader(block.round) || true,", ["C09","C04"]),
  ("c09-propose-also-in-process-qc", "consensus/src/core.rs", "    async fn process_qc(&mut self, qc: &QC) {\n        self.advance_round(qc.round).await;\n        self.update_high_qc(qc);\n    }", "    async fn process_qc(&mut self, qc: &QC) {\n        let before = self.round;\n        self.advance_round(qc.round).await;\n        self.update_high_qc(qc);\n        if self.round > before && self.name == self.leader_elector.get_leader(self.round) {\n            self.generate_proposal(None).await;\n        }\n    }", ["C09"]),
